@@ -22,7 +22,7 @@ import (
 func TestC04FailureKinds(t *testing.T) {
 	sub := lab.Sub("failure-kinds", "rapid histories of 4..30 sequential requests against the real balancer in virtual time; before each request every backend is given a drawn behaviour from "+
 		"{good, 4xx, 5xx, unreachable, interim-then-5xx, interim-then-good, hang: accepts the request and never answers, so that the exchange ends when server.timeouts.handler (1-3 s) fires}; in one step of six the backend streams a 200 and the CLIENT hangs up while the body is relayed (an aborted exchange that is not a failed response: it must not count); "+
-		"5 strategies x threshold 1-4 x window 2-5 s x 1-3 backends, passive checks on, active checks off or on with a 600 s interval; after each response the serving backend's reported health "+
+		"5 strategies x threshold 1-4 x window 2-5 s x 1-3 backends, passive checks on, active checks off or on with a 600 s interval, in a fresh process or one in which up to 40 other backends have come and gone (see life_test.go); after each response the serving backend's reported health "+
 		"(ListBackends, /health, /metrics) is compared with the monitor: R1 not ejected before `threshold` failed responses (cumulative count since the last ejection), R2 ejected once `threshold` failed responses occurred in a row, "+
 		"R4 not served inside its window, R6 not reported healthy inside its window; a hang must be answered with a 5xx status within handler timeout + 100 ms; "+
 		"non-trivial = an ejection whose streak contains a handler-timeout failure")
@@ -33,6 +33,7 @@ func TestC04FailureKinds(t *testing.T) {
 		c := hcfg{Strategy: rapid.SampledFrom(lab.Strategies).Draw(rt, "strategy"), N: rapid.IntRange(1, 3).Draw(rt, "n"),
 			Threshold: rapid.IntRange(1, 4).Draw(rt, "threshold"), WindowS: rapid.IntRange(2, 5).Draw(rt, "window"), Passive: true,
 			Active: rapid.Bool().Draw(rt, "active"), IntervalS: 600, TimeoutS: 1}
+		c.Life = genLife(rt, c.N, false)
 		H := rapid.IntRange(1, 3).Draw(rt, "handler_timeout")
 		steps := rapid.IntRange(4, 30).Draw(rt, "steps")
 		kinds := []lab.Behaviour{lab.Good, lab.Status4xx, lab.Status5xx, lab.Unreachable, lab.Interim5xx, lab.InterimGood, lab.Park, lab.Park}
@@ -49,6 +50,7 @@ func TestC04FailureKinds(t *testing.T) {
 				cfg.HealthChecks.Active.Enabled = c.Active
 				cfg.HealthChecks.Active.Interval, cfg.HealthChecks.Active.Timeout, cfg.HealthChecks.Active.Path = c.IntervalS, c.TimeoutS, "/healthz"
 				cfg.Server.Timeouts.Handler = H
+				c.Life.configure(cfg)
 				if err := cfg.Validate(); err != nil {
 					rt.Fatalf("harness: config rejected: %v", err)
 				}
@@ -73,6 +75,9 @@ func TestC04FailureKinds(t *testing.T) {
 					synctest.Wait()
 				}()
 				synctest.Wait()
+				if e := w.live(c.Life); e != "" {
+					rt.Fatalf("%s", e)
+				}
 				streakHasTimeout := map[string]bool{}
 				for s := 0; s < steps && viol == ""; s++ {
 					if rapid.IntRange(0, 4).Draw(rt, "pause") == 0 {
@@ -194,6 +199,7 @@ func TestC04FailureKinds(t *testing.T) {
 			})
 		})
 		labels := []string{"strategy=" + c.Strategy, fmt.Sprintf("threshold=%d", c.Threshold)}
+		labels = append(labels, lifeLabels(c.Life, 0)...)
 		if ejections > 0 {
 			labels = append(labels, "ejection")
 		}
